@@ -63,6 +63,9 @@ type global struct {
 	skipped int
 
 	skippedOther int
+	artefact     int
+	offFormula   int
+	maskedChmod  int
 	outcomes     map[string]int
 	viols        map[string]*violAgg
 	violSeq      map[string]int
@@ -92,6 +95,9 @@ func (g *global) merge(c chunk, r reply) {
 	g.allowed += r.Allowed
 	g.skipped += r.PolicySkipped
 	g.skippedOther += r.PolicySkippedOther
+	g.artefact += r.ArtefactSkipped
+	g.offFormula += r.KernelOffFormula
+	g.maskedChmod += r.MaskedChmodSetgid
 
 	for k, n := range r.Outcomes {
 		g.outcomes[k] += n
@@ -410,10 +416,13 @@ func main() {
 			"blocks_complete": len(done), "blocks_partial": append([]string{}, partial...), "blocks": g.stats,
 			"builds": g.builds, "kernel_refused": g.refused, "kernel_allowed": g.allowed,
 			"skipped_kernel_policy_protected_hardlinks": g.skipped, "skipped_kernel_policy_other": g.skippedOther,
-			"instances_note":         fmt.Sprintf("instance counts printed by the known-findings reporter are capped at %d per signature; exact counts: violation_instances here and instances_exact in each replay file", reportCap),
-			"violation_instances":    total,
-			"known_findings_matched": append([]string{}, rep.KnownMatched()...),
-			"workers":                nw, "scratch_fs": fsTypeName(scratch),
+			"skipped_go_removeall_parent_read_artefact": g.artefact,
+			"kernel_created_object_off_formula":         g.offFormula,
+			"masked_chmod_setgid_cleared_by_kernel":     g.maskedChmod,
+			"instances_note":                            fmt.Sprintf("instance counts printed by the known-findings reporter are capped at %d per signature; exact counts: violation_instances here and instances_exact in each replay file", reportCap),
+			"violation_instances":                       total,
+			"known_findings_matched":                    append([]string{}, rep.KnownMatched()...),
+			"workers":                                   nw, "scratch_fs": fsTypeName(scratch),
 			"sysctl_fs_protected_hardlinks": sysctlInt("fs/protected_hardlinks"), "sysctl_fs_protected_symlinks": sysctlInt("fs/protected_symlinks"),
 			"sysctl_fs_protected_regular": sysctlInt("fs/protected_regular"),
 		},
@@ -422,6 +431,9 @@ func main() {
 			"supplementary groups are empty on the kernel side: MemIdm users have exactly one group",
 			"no ACLs, no file capabilities, no LSM; kernel policies on top of DAC are not compared: with fs.protected_hardlinks=1 (the case here) Link evaluations the kernel answers with EPERM for a regular file (counted in skipped_kernel_policy_protected_hardlinks); with fs.protected_symlinks / fs.protected_regular non-zero (both 0 here) EACCES answers for a symbolic link followed, or an existing file opened with O_CREATE, inside a sticky directory (skipped_kernel_policy_other)",
 			"ancestors of the scratch root are world-searchable on tmpfs (the driver adds o+rx to the per-run scratch directories) and root:root 0755 in MemFS",
+			"created objects are judged by the formula of the property (uid = calling user, gid = calling group, mode = perm &^ umask including the special bits of perm), not by the kernel: Linux hands the group of a setgid directory (and the bit, for subdirectories) down to new objects, mkdir(2) ignores S_ISGID in its mode argument, and S_ISGID is stripped from a file created by a non-member of the group of a setgid directory or written by an unprivileged user; such kernel results are counted in kernel_created_object_off_formula and never reported",
+			"chmod with S_ISGID by an owner who is not in the file's group: the kernel silently clears the bit, the property does not name that rule; a tree difference consisting only of S_ISGID present on the avfs side after Chmod/File.Chmod is masked (masked_chmod_setgid_cleared_by_kernel)",
+			"os.RemoveAll of a non-empty directory opens the parent directory for reading after the plain remove failed; a refusal whose only cause is missing read permission on the parent is an artefact of Go's strategy and is not compared (skipped_go_removeall_parent_read_artefact)",
 			"umask is varied for creating calls only; other calls run with umask 022",
 			"modification times are not compared (Chtimes: allowed/refused only); size and link count of symbolic links are not compared (C01/C04)",
 			"handles are opened by the acting user on its own view; handles passed between views are not explored",
@@ -445,7 +457,7 @@ func describeBound(tier string, perPhase map[string][2]int) string {
 		"A": "A: depth<=2 + two-directory Rename/Link + Rename/Link onto an existing file, 16-mode covering set (8 rwx values of the applicable class x other classes 000/777), owner in {actor, other user, root} x group in {own, other}, parent special in {none, sticky, setgid}, creating calls x 4 perms x 5 umasks",
 		"B": "B: depth 3, grandparent 16 modes, parent and leaf 8 modes",
 		"C": "C: depth<=2, full covering set (32 modes, 6 owner/group pairs, special bits on every directory)",
-		"D": "D: depth 3, 16-mode set on all three nodes",
+		"D": "D: depth 3 for a user who owns nothing, grandparent 8 modes x special bits {none, sticky, setgid}, parent and leaf 8 modes",
 	}
 
 	var ph []string
